@@ -128,7 +128,7 @@ mod verif_kani_array {
         laws3(any_complex(), any_complex(), any_complex());
     }
 
-    //@ id=C15.e1.f64.eq_implies_hash_eq props=C15 level=complete tier=quick desc="f64: equal values write identical bytes to the hasher (map-sentinel NaN payloads excluded: see the _sentinels obligation)"
+    //@ id=C15.e1.f64.eq_implies_hash_eq props=C15,C16 level=complete tier=quick desc="f64: equal values write identical bytes to the hasher (map-sentinel NaN payloads excluded: see the _sentinels obligation)"
     #[kani::proof]
     fn vk_c15_f64_eq_implies_hash_eq() {
         let a = any_f64_nw();
@@ -217,16 +217,23 @@ mod verif_kani_array {
         a.hash(&mut r);
         r
     }
-    fn total_order3<T: ArrayValue>(a: &Array<T>, b: &Array<T>, c: &Array<T>) {
-        // antisymmetry + transitivity + 'equal' coincides with ==
+    fn pair_laws<T: ArrayValue>(a: &Array<T>, b: &Array<T>) {
+        // antisymmetry, 'equal' coincides with ==, equal arrays hash alike
         assert!(a.cmp(b) == b.cmp(a).reverse());
         assert!((a.cmp(b) == Ordering::Equal) == (a == b));
-        if a.cmp(b) != Ordering::Greater && b.cmp(c) != Ordering::Greater {
-            assert!(a.cmp(c) != Ordering::Greater);
-        }
+        assert!((a == b) == (b == a));
         if a == b {
             assert!(hash_arr(a).same(&hash_arr(b)));
         }
+    }
+    fn trans3<T: ArrayValue>(a: &Array<T>, b: &Array<T>, c: &Array<T>) {
+        if a.cmp(b) != Ordering::Greater && b.cmp(c) != Ordering::Greater {
+            assert!(a.cmp(c) != Ordering::Greater);
+        }
+    }
+    fn total_order3<T: ArrayValue>(a: &Array<T>, b: &Array<T>, c: &Array<T>) {
+        pair_laws(a, b);
+        trans3(a, b, c);
     }
     //@ id=C15.e1.array.total_order.same_shape_2x2 props=C15,C09 level=bounded tier=thorough budget=3000 bound="three byte arrays of shape 2x2" desc="Array eq/cmp/hash laws on equal shapes"
     #[kani::proof]
@@ -248,6 +255,20 @@ mod verif_kani_array {
         total_order3(&b, &c, &a);
         total_order3(&c, &a, &b);
     }
+    //@ id=C15.e1.array.pair_laws.same_rank_different_shape props=C15,C09 level=bounded tier=quick budget=900 bound="byte arrays of shapes [1,4], [2,1], [2,2], [4,1]" desc="same-rank arrays of different shapes: antisymmetric, never Equal / == (their shapes differ), == symmetric"
+    #[kani::proof]
+    #[kani::unwind(12)]
+    fn vk_c15_array_pairs_diff_shape() {
+        let a = arr_u8::<4, 2>([1, 4]);
+        let b = arr_u8::<2, 2>([2, 1]);
+        let c = arr_u8::<4, 2>([2, 2]);
+        let d = arr_u8::<4, 2>([4, 1]);
+        pair_laws(&a, &b);
+        pair_laws(&b, &c);
+        pair_laws(&a, &c);
+        pair_laws(&c, &d);
+        assert!(a != c && a.cmp(&c) != Ordering::Equal && c != d && c.cmp(&d) != Ordering::Equal);
+    }
     //@ id=C15.e1.array.total_order.same_rank_different_shape props=C15 level=bounded tier=quick budget=900 bound="byte arrays of shapes [1,4], [2,1], [2,2]" desc="Array ordering is transitive across same-rank arrays of different shapes"
     #[kani::proof]
     #[kani::unwind(12)]
@@ -255,9 +276,9 @@ mod verif_kani_array {
         let a = arr_u8::<4, 2>([1, 4]);
         let b = arr_u8::<2, 2>([2, 1]);
         let c = arr_u8::<4, 2>([2, 2]);
-        total_order3(&a, &b, &c);
-        total_order3(&b, &c, &a);
-        total_order3(&c, &a, &b);
+        trans3(&a, &b, &c);
+        trans3(&b, &c, &a);
+        trans3(&c, &a, &b);
     }
     //@ id=C06.e1.array.byte_vs_float_same_numbers props=C06,C15,C09 level=bounded tier=thorough budget=3000 bound="shape 2x2" desc="a byte array and the float array holding the same numbers are equal, ordered alike against a third array and hash alike"
     #[kani::proof]
